@@ -54,9 +54,9 @@ def short(s, n=160):
 
 def check_property(prop, tier, seed=0, replay_path=None, only=None):
     t0 = time.time()
-    mod = importlib.import_module("sbv.props." + prop.lower())
+    from .registry import contracts_for
     known = load_known()
-    contracts = mod.contracts(tier)
+    contracts, mods = contracts_for(prop, tier)
     if only:
         contracts = [c for c in contracts if re.search(only, c.ident())]
     if not contracts:
@@ -152,7 +152,7 @@ def check_property(prop, tier, seed=0, replay_path=None, only=None):
             obligations=n_obl, discharged=n_ok,
             bounded_obligations=n_bounded, bounded_discharged=n_bounded_ok,
             checker_cmd="goto-cc h.c; goto-instrument --dfcc main --enforce-contract <f> [--replace-call-with-contract <g>]* [--apply-loop-contracts]; cbmc %s [--unwind N --unwinding-assertions] (portfolio: minisat, kissat, z3, cvc5)" % " ".join(engine.CHECK_FLAGS),
-            trusted_base=TRUSTED + getattr(mod, "TRUSTED", []),
+            trusted_base=TRUSTED + [t for m in mods for t in getattr(m, "TRUSTED", [])],
             contracts=len(results), contracts_ok=sum(1 for r in results if r.status == "ok"),
             functions_under_contract=functions,
             backends={b: sum(1 for r in results if r.backend == b) for b in {r.backend for r in results if r.backend}},
@@ -161,9 +161,9 @@ def check_property(prop, tier, seed=0, replay_path=None, only=None):
             known_findings_reported=known_lines,
             undecided=[dict(contract=r.c.ident(), why=short(r.detail, 300)) for r in undecided],
             rule="one obligation = one CBMC property (ensures clause, assigns-clause check, pointer/bounds/overflow/shift check, loop-invariant base/step, unwinding assertion) of one contract enforced by DFCC on the lowered real code; bounded obligations are counted separately and never under 'discharged'",
-            explanation=getattr(mod, "EXPLANATION", ""),
+            explanation=" ".join(getattr(m, "EXPLANATION", "") for m in mods).strip(),
         ),
-        assumptions=ASSUMPTIONS + getattr(mod, "ASSUMPTIONS", []),
+        assumptions=ASSUMPTIONS + [t for m in mods for t in getattr(m, "ASSUMPTIONS", [])],
         wall_s=round(wall, 1), violations=len(vio_lines),
     )
     os.makedirs(os.path.join(VERIF, "evidence"), exist_ok=True)
